@@ -15,6 +15,36 @@ CHECKS = {
         ref='4/C05', engine='rv-differential'),
 }
 
+CHECKS.update({
+    'C01': dict(
+        technique='runtime reference-model monitor: adversarial worst-case search over the declared set at the returned solution',
+        text='After each real ro solve the returned x.get()/ldr.get()/ldr.get(z) values are substituted into every '
+             'robust requirement of a neutral spec; LP / ECOS / closed-form / SLSQP adversaries on the harness\'s own '
+             'set description search for a violating realisation; witnesses are re-verified (membership and violation) in NumPy.',
+        note='Solvers trusted to return points feasible for the compiled program; adversary affects detection power only.',
+        ref='4/C01', engine='rv-reference'),
+    'C02': dict(
+        technique='runtime reference-model monitor: independent cutting-plane solution of the semi-infinite problem',
+        text='RSOME\'s reported optimum is compared with a cutting-plane reference (HiGHS master LP over verified '
+             'realisations, separation by LP/ECOS/closed form); disagreements need a witness (violated realisation, or a '
+             're-verified robustly feasible better point); status mismatch on feasible bounded models is a violation.',
+        note='HiGHS/ECOS in the reference are trusted; conservatism judged only with exact separation oracles.',
+        ref='4/C02', engine='rv-reference'),
+    'C06': dict(
+        technique='runtime reference-model monitor: closed-form re-evaluation of every user constraint and the objective at the returned point',
+        text='Random deterministic models over all atoms/spellings/variable types in ro and dro front ends are solved; '
+             'each user constraint and the objective are evaluated by NumPy at x.get(); a violated constraint or a '
+             'misreported objective is the witness.',
+        note='Closed forms in rv/atoms.py define the meaning of atoms; solver tolerances 1e-6 / 2e-5.',
+        ref='4/C06', engine='rv-reference'),
+    'C07': dict(
+        technique='runtime reference-model monitor: pinned-argument closed forms, improving-feasible-point adversary, brute-force enumeration',
+        text='Pinned-argument models must return each atom\'s closed-form value (parameter sweeps); an adversary searches '
+             'for a feasible strictly better point of the user\'s model; small integer models are enumerated.',
+        note='An adversary that finds nothing is not a proof of optimality; closed forms are the reference.',
+        ref='4/C07', engine='rv-reference'),
+})
+
 PENDING = {}
 
 
